@@ -2,7 +2,7 @@
  * models/aws_fmt.c -- model (assumed contract, G6) of asprintf(3) for exactly the conversions aws/aws_sign.c uses:
  * %s  %d  %%  and ordinary characters (C11 7.21.6.1).  Any other conversion fails a MODEL assertion.
  *
- * WHAT IS MODELLED.  asprintf either fails (returns -1, *ret untouched) -- nondeterministically, or when malloc
+ * WHAT IS MODELLED.  asprintf either fails (returns -1, *ret = NULL) -- nondeterministically, or when malloc
  * fails -- or stores a fresh NUL-terminated string in *ret and returns its length.  The model records WHAT WAS ASKED
  * TO BE PRINTED, in normal form (models/aws_stream.h): the literal text of the format, each %s argument (a
  * registered input as a REF token, a fixed-length internal string or a string literal as text), each %d argument.
@@ -54,15 +54,23 @@ aws_asprintf9(char ** ret, const char * fmt, const void * a1, const void * a2, c
 	char * str;
 	size_t ai = 0;
 	size_t fi, i, L;
+	int fail;
 
 	av[0] = a1; av[1] = a2; av[2] = a3; av[3] = a4; av[4] = a5; av[5] = a6; av[6] = a7; av[7] = a8; av[8] = a9;
-	if (nondet_int())
-		return (-1);
-	if ((str = malloc(AWS_OUTMAX)) == NULL)
-		return (-1);
+	/*
+	 * Failure is decided first, but there is NO early return: a symbolic execution merges the states of the two
+	 * paths at the return, and a record counter or token count that differs between them would be symbolic from
+	 * then on (measured: the second asprintf call does not finish).  A failed call therefore also takes a record
+	 * slot (marked failed) and builds its normal form; only the bytes and the values handed back depend on `fail`.
+	 */
+	fail = (nondet_int() != 0);
+	str = malloc(AWS_OUTMAX);
+	if (str == NULL)
+		fail = 1;
 
 	AWS_FMT_BOUND(g_aws_fmt.n < AWS_NREC, "more than AWS_NREC asprintf calls");
 	r = &g_aws_fmt.rec[g_aws_fmt.n];
+	g_aws_fmt.n++;
 	aws_stream_init(&r->s);
 	for (fi = 0; fi < AWS_FMTMAX; fi++) {
 		char c = fmt[fi];
@@ -93,16 +101,20 @@ aws_asprintf9(char ** ret, const char * fmt, const void * a1, const void * a2, c
 	/* the result: L arbitrary non-NUL bytes, then NUL; remembered */
 	L = aws_stream_len(&r->s);
 	AWS_FMT_BOUND(L < AWS_OUTMAX, "asprintf result longer than AWS_OUTMAX - 1");
-	for (i = 0; i < AWS_OUTMAX; i++)
-		__CPROVER_assume(i >= L || str[i] != '\0');
-	str[L] = '\0';
-	for (i = 0; i < AWS_OUTMAX; i++)
-		r->snap[i] = (uint8_t)str[i];
+	if (!fail) {
+		for (i = 0; i < AWS_OUTMAX; i++)
+			__CPROVER_assume(i >= L || str[i] != '\0');
+		str[L] = '\0';
+		for (i = 0; i < AWS_OUTMAX; i++)
+			r->snap[i] = (uint8_t)str[i];
+	} else if (str != NULL)
+		free(str);
+	r->failed = fail;
 	r->len = L;
-	r->result = str;
-	g_aws_fmt.n++;
-	*ret = str;
-	return ((int)L);
+	r->result = fail ? NULL : str;
+	/* on failure *ret is unspecified by the interface; glibc and the BSDs store NULL, and so does the model */
+	*ret = fail ? NULL : str;
+	return (fail ? -1 : (int)L);
 }
 
 #pragma CPROVER check pop
